@@ -78,13 +78,42 @@ class SymArena:
 
     def live(self, i): return self.stamp[i] >= 0
 
-    def value(self, spare=1, cap=None):
-        nodes = []
+    # ---- embedded mode: the N modelled slots sit at symbolic positions at[0] < at[1] < ... of a longer vector
+    def embed(self, maxlen=1 << 17):
+        """returns the constraints; afterwards value() / id_of() produce ids with the real (embedded) positions"""
+        self.at = [z3.BitVec('%sat%d' % (self.pfx, i), 64) for i in range(self.N)]
+        self.vlen = z3.BitVec(self.pfx + 'vlen', 64)
+        cs = [z3.ULE(self.vlen, maxlen)]
         for i in range(self.N):
-            links = [opt_nodeid(self.some[L][i], self.idx[L][i], self.lst[L][i]) for L in LINKS]
+            cs.append(z3.ULT(self.at[i], self.vlen))
+            if i: cs.append(z3.ULT(self.at[i - 1], self.at[i]))
+        return cs
+
+    def to_real(self, idx1):
+        """abstract 1-based slot term -> real 1-based position"""
+        if not getattr(self, 'at', None): return idx1
+        return sel([a + 1 for a in self.at], idx1)
+
+    def to_abstract(self, real1):
+        """real 1-based position -> abstract 1-based slot (0 when it is none of the modelled slots)"""
+        if not getattr(self, 'at', None): return real1
+        acc = BV64(0)
+        for i in range(self.N - 1, -1, -1): acc = z3.If(real1 == self.at[i] + 1, BV64(i + 1), acc)
+        return acc
+
+    def value(self, spare=1, cap=None, embedded=False):
+        nodes = []
+        emb = embedded and getattr(self, 'at', None)
+        for i in range(self.N):
+            links = [opt_nodeid(self.some[L][i], self.to_real(self.idx[L][i]) if emb else self.idx[L][i], self.lst[L][i]) for L in LINKS]
             dd = S(z3.If(self.live(i), BV64(0), BV64(1)), 'isize')
             data = En('NodeData', dd, {0: (Opq(self.data[i]),), 1: (opt_usize(self.nf_some[i], self.nf_idx[i], REPR['nf_nonzero']),)})
             nodes.append(Agg('Node', links + [Agg('NodeStamp', (S(self.stamp[i], 'i16'),)), data]))
+        if emb:
+            # free-list ends are not modelled in embedded mode (read-only harnesses): unconstrained
+            vec = VecV(S(self.vlen, 'usize'), S(z3.BitVec(self.pfx + 'vcap', 64), 'usize'), nodes, pos=list(self.at))
+            return Agg('Arena', (vec, opt_usize(z3.Bool(self.pfx + 'e_ff_some'), z3.BitVec(self.pfx + 'e_ff', 64), REPR['free_ends_nonzero']),
+                                 opt_usize(z3.Bool(self.pfx + 'e_lf_some'), z3.BitVec(self.pfx + 'e_lf', 64), REPR['free_ends_nonzero'])))
         vec = VecV(S(self.N, 'usize'), (self.N + spare) if cap is None else cap, nodes + [UNINIT] * spare)
         return Agg('Arena', (vec, opt_usize(self.ff_some, self.ff_idx, REPR['free_ends_nonzero']), opt_usize(self.lf_some, self.lf_idx, REPR['free_ends_nonzero'])))
 
@@ -92,7 +121,7 @@ class SymArena:
 
     def id_of(self, x):
         """current id of 1-based slot term x"""
-        return mk_id(x, sel(self.stamp, x))
+        return mk_id(self.to_real(x), sel(self.stamp, x))
 
     def inv(self, strict_removed=True):
         """INV as assumption (rank witnesses for acyclicity and free-list order)."""
@@ -165,9 +194,12 @@ class SymArena:
                 else: d[L] = None
             d['next_free'] = ev(self.nf_idx[i]) if (st < 0 and ev(self.nf_some[i])) else None
             slots.append(d)
-        return {'slots': slots,
-                'first_free': ev(self.ff_idx) if ev(self.ff_some) else None,
-                'last_free': ev(self.lf_idx) if ev(self.lf_some) else None}
+        out = {'slots': slots,
+               'first_free': ev(self.ff_idx) if ev(self.ff_some) else None,
+               'last_free': ev(self.lf_idx) if ev(self.lf_some) else None}
+        if getattr(self, 'at', None):
+            out['at'] = [ev(a) for a in self.at]; out['vlen'] = ev(self.vlen)
+        return out
 
 
 class View:
